@@ -23,7 +23,7 @@ EXPLANATION = (
     "is mutated by any function, and the ContextVar limiter is the only cross-call channel; (R5) who-may-copy: deepcopy is called only by the two "
     "documented helpers (signature defaults; explicit map_over clone), copy.copy only on a derivation's receiver, and bind() stores the caller's objects "
     "themselves; (R6) a mapping graph node leaves the inner graph's own bound values out of the inputs of the nested map, so per-item cloning can "
-    "never touch them."
+    "never touch them. R6 is decided as a truth table of the executor's comprehension filter over 'key is bound in the inner graph' x 'value is that bound object': exactly the (bound, same object) case may be dropped."
 )
 NOT_DECIDED = "Equality of results across repeated/concurrent runs as such; behaviour of user objects that refuse deepcopy (reported as GraphConfigError by design)."
 
